@@ -137,7 +137,8 @@ theorem q2_start {c : Cfg α} (de : Bool) (k0 e0 : Nat) : Q2 c (start c de k0 e0
   have b : Q2 c (start0 c de k0 e0) := by
     refine ⟨by simp [start0], by simp [start0], by simp [start0], by simp [start0], by simp [start0],
       by simp [start0, Pc.isCloseD], by simp [start0], by simp [start0]⟩
-  have e : start c de k0 e0 = if c.o.stdin then continueLoop c (start0 c de k0 e0) else start0 c de k0 e0 := rfl
+  have e : start c de k0 e0 = if c.o.stdin then continueLoop c (start0 c de k0 e0)
+      else { start0 c de k0 e0 with blk := (start0 c de k0 e0).blk + 1 } := rfl
   rw [e]
   split
   · have fr := frame_continueLoop c (start0 c de k0 e0)
@@ -147,6 +148,6 @@ theorem q2_start {c : Cfg α} (de : Bool) (k0 e0 : Nat) : Q2 c (start c de k0 e0
     intro h1 h2
     have := continueLoop_origin c (start0 c de k0 e0) (by simp [start0]) h1
     rw [this] at h2; simp at h2
-  · exact b
+  · exact ⟨b.ownFile, b.preOwn, b.synced, b.atFsync, b.dsynced, b.attrs, b.closed, b.srcUnl⟩
 
 end XzVerif.XzIo
